@@ -61,3 +61,80 @@ func OnceDo(o *sync.Once, f func()) {
 	defer onceLeave(o)
 	o.Do(f)
 }
+
+// ---- WaitGroup ---------------------------------------------------------------------
+//
+// wg.Add / wg.Done / wg.Wait become WGAdd / WGDone / WGWait. The real WaitGroup
+// is still driven (the race detector sees the real Done -> Wait edges); under
+// the scheduler the counter is mirrored in a table so that a waiting task knows,
+// without asking the runtime, when the real Wait would return.
+
+const maxWG = 64
+
+var (
+	wgPtr [maxWG]*sync.WaitGroup
+	wgCnt [maxWG]int
+)
+
+//go:norace
+func wgReset() {
+	for i := range wgPtr {
+		wgPtr[i] = nil
+		wgCnt[i] = 0
+	}
+}
+
+//go:norace
+func wgDelta(wg *sync.WaitGroup, d int) {
+	free := -1
+	for i := range wgPtr {
+		if wgPtr[i] == wg {
+			wgCnt[i] += d
+			if wgCnt[i] <= 0 {
+				wgPtr[i] = nil
+				wgCnt[i] = 0
+			}
+			return
+		}
+		if wgPtr[i] == nil && free < 0 {
+			free = i
+		}
+	}
+	if d > 0 && free >= 0 {
+		wgPtr[free] = wg
+		wgCnt[free] = d
+	}
+}
+
+//go:norace
+func wgCount(wg *sync.WaitGroup) int {
+	for i := range wgPtr {
+		if wgPtr[i] == wg {
+			return wgCnt[i]
+		}
+	}
+	return 0
+}
+
+func WGAdd(wg *sync.WaitGroup, n int) {
+	wg.Add(n)
+	if schedActive() {
+		wgDelta(wg, n)
+	}
+}
+
+func WGDone(wg *sync.WaitGroup) {
+	if schedActive() {
+		wgDelta(wg, -1)
+	}
+	wg.Done()
+}
+
+func WGWait(wg *sync.WaitGroup) {
+	if schedActive() {
+		for wgCount(wg) > 0 {
+			blockedYield()
+		}
+	}
+	wg.Wait()
+}
